@@ -10,10 +10,12 @@ META = dict(
           "follow-up use of the same objects; (program) random 3-10 step table-operation programs on table collections "
           "corrupted by 1-3 operators (out-of-range ids per reference column, NaN/inf/out-of-range coordinates, shuffled rows, "
           "stale/out-of-range/truncated index, dangling individual parents); (oom) every tsk allocation of ~34 calls "
-          "failed in turn through an LD_PRELOAD shim. Oracle: process status + ASan/UBSan log, SystemError, hang watchdog, and "
+          "failed in turn through an LD_PRELOAD shim; (memcheck) slices of the sweep and program workloads repeated on the plain "
+          "gcc -O2 build under valgrind memcheck with origin tracking, every returned value branched on or written to /dev/null, "
+          "reports kept when the error or origin stack has a frame in tskit's C sources. Oracle: process status + ASan/UBSan log, SystemError, hang watchdog, and "
           "'must raise' for identifiers outside the documented range. Distinct = sha1 of (call, input kind, input rows) or "
           "(rows, corruption list); trivial when no corruption applied."),
-    REQUIRED=["calls", "program-ops", "id-clause-checks", "followup-probes", "oom-injections"],
+    REQUIRED=["calls", "program-ops", "id-clause-checks", "followup-probes", "oom-injections", "memcheck:runs"],
     ASSUMPTIONS=ASSUME_COMMON + [
         "UBSan nonnull-attribute is disabled (memcpy(NULL, .., 0) on empty columns is treated as defined)",
         "a watchdog firing counts only after an isolated re-run with 5x the budget hangs again",
@@ -22,4 +24,5 @@ META = dict(
     BUDGET={"quick": 55.0, "thorough": 1200.0},
     CASE_TIMEOUT={"quick": 90, "thorough": 180},
     SHIM=True,
+    EXTRA_VARIANTS=["plain"],
 )
